@@ -51,6 +51,10 @@ pub fn tool_main(args: &[String]) -> i32 {
             eprintln!("outcome: {:?} steps {}", r.outcome, r.steps);
             0
         }
+        "c13-count" => {
+            println!("{}", crate::props::c13::count_space(std::env::var("LIM").ok().and_then(|s| s.parse().ok()).unwrap_or(1_000_000)));
+            0
+        }
         "calib-make" => calib_make(&format!("{}/corpus/calibration", crate::harness::VERIF)),
         "calib-check" => match calib_check(&format!("{}/corpus/calibration", crate::harness::VERIF)) {
             Ok((n, w)) => {
